@@ -150,9 +150,45 @@ class FieldInvariants:
             for _, x in v[2]:
                 self._agg_field_values(x, owner, field, env, bits, out, depth + 1)
 
+    def _untouching(self, owner, field):
+        """crate functions that can neither store to owner.field nor construct an `owner` value (transitively):
+        they are kept opaque (with a field-sensitive havoc) while computing the invariant"""
+        key = ('untouching', owner, field)
+        if key in self.cache:
+            return self.cache[key]
+        probe = absint.Interp(self.facts)
+        constructs = set()
+        for fname, fn in self.facts['functions'].items():
+            for b in fn['blocks']:
+                for s in b['stmts']:
+                    if s['k'] == 'assign' and s['rv']['k'] == 'aggregate' and s['rv']['kind']['k'] == 'adt' and \
+                            s['rv']['kind']['name'] == owner:
+                        constructs.add(fname)
+        cg = self.prog.callgraph()
+        touching = set(constructs)
+        for fname in self.facts['functions']:
+            f2, u2 = probe.modset(fname)
+            if u2 or (owner, field) in f2:
+                touching.add(fname)
+        # close under "calls a touching function"
+        changed = True
+        while changed:
+            changed = False
+            for fname, edges in cg.items():
+                if fname in touching:
+                    continue
+                if any(e[0] in touching for e in edges):
+                    touching.add(fname)
+                    changed = True
+        res = [f for f in self.facts['functions'] if f not in touching and '{closure' not in f]
+        self.cache[key] = res
+        return res
+
     def _store_values(self, fname, owner, field, bits):
+        opq = [f for f in self._untouching(owner, field) if f != fname]
         ip = absint.Interp(self.facts, sym_facts=self.sym_facts, trust_asserts=('overflow', 'bounds', 'slice_index'),
-                           max_depth=6, loop_mode='havoc', path_budget=3000)
+                           max_depth=6, loop_mode='havoc', path_budget=3000, opaque=opq,
+                           opaque_havoc={f: [0] for f in opq})
         st = ip.new_state()
         fn = self.facts['functions'][fname]
         args = _arg_values(ip, st, fn)
